@@ -17,14 +17,17 @@ from . import integ_common as ic
 
 PROP = "C03"
 LEAN_MODULES = ["MiciVerif.Props.C03"]
-LEAN_EXTRA = ["MiciVerif.Model.Integrators", "MiciVerif.Proto"]
+LEAN_EXTRA = ["MiciVerif.Model.Integrators", "MiciVerif.Lemmas.IntegratorsExec", "MiciVerif.Proto", "MiciVerif.Model.IntegratorsTangent"]
 
 
 # ---------------------------------------------------------------------------------------
 # FILLED IN BY LEAN-SIDE AUTHOR
-def correspondence(ctx):  # noqa: ARG001
-    """Model-vs-implementation comparison (Lean driver).  FILLED IN BY LEAN-SIDE AUTHOR."""
-    return
+def correspondence(ctx):
+    """Propagated Jacobian of the Lean model (Driver/C03.lean, exact rationals, exact symplecticity
+    decided over Q) vs a five-point finite-difference Jacobian of the real `Integrator.step`."""
+    from . import integ_corr
+
+    integ_corr.jacobian_cases(ctx, common.rng_for(ctx, 1), ctx.n(24, 200))
 
 
 # ---------------------------------------------------------------------------------------
@@ -33,12 +36,46 @@ def correspondence(ctx):  # noqa: ARG001
 TOL_FORM = 1e-6
 TOL_DET = 1e-6
 TOL_TANGENT = 1e-6
-FD_H = 2.0**-9
+FD_LADDER = [2.0**-9, 2.0**-12, 2.0**-14]
 CASE_TIMEOUT = 120.0
 
 
 def _cls(case):
     return ic.integrator_class_name(case["integrator"])
+
+
+def _measure(case, sysw, F, z0, B, h):
+    """Finite-difference tangent map at step h and the oracle residuals."""
+    d, n = sysw.dim, int(case["n"])
+    cls, desc = _cls(case), ic.describe(case)
+    z1 = F(z0)
+    JB = ic.fd_jacobian(F, z0, h, order=4, basis=B)
+    if not (np.all(np.isfinite(JB)) and np.all(np.isfinite(z1))):
+        return None, {}
+    Om = ic.omega(d)
+    W0 = B.T @ Om @ B
+    W1 = JB.T @ Om @ JB
+    size = max(1.0, float(np.max(np.abs(JB))) ** 2)
+    err = float(np.max(np.abs(W1 - W0)))
+    m = {"err": err, "size": size, "h": h}
+    fails = []
+    where = "restricted to T(T*M)" if sysw.constrained else ""
+    if not err <= TOL_FORM * size:
+        fails.append((f"{cls} not symplectic", f"max |J^T Ω J - Ω| {where} = {err:.3e} > {TOL_FORM * size:.1e} for the finite-difference Jacobian (h={h}) of {n} step(s) [{desc}]"))
+    if not sysw.constrained:
+        det = float(np.linalg.det(JB))
+        m["det"] = det
+        if not abs(det - 1.0) <= TOL_DET * size ** d:
+            fails.append((f"{cls} not volume preserving", f"det J = {det!r} for the finite-difference Jacobian (h={h}) of {n} step(s) [{desc}]"))
+    else:
+        # the image of T_z(T*M) must be T_{F(z)}(T*M)
+        B1 = sysw.tangent_basis(z1)
+        resid = JB - B1 @ (B1.T @ JB)
+        terr = float(np.max(np.abs(resid)))
+        m["tangent_err"] = terr
+        if not terr <= TOL_TANGENT * max(1.0, float(np.max(np.abs(JB)))) * 10:
+            fails.append((f"{cls} leaves cotangent bundle", f"derivative of the step maps tangent vectors of T*M out of T(T*M) by {terr:.3e} (h={h}) [{desc}]"))
+    return fails, m
 
 
 def check_case(case, info=None):
@@ -49,7 +86,7 @@ def check_case(case, info=None):
     sysw = ic.build_system(case["system"])
     integ = ic.build_integrator(sysw, case["integrator"])
     st0 = ic.build_state(case["state"])
-    n, d = int(case["n"]), sysw.dim
+    n = int(case["n"])
     z0 = ic.zvec(st0)
     F0 = ic.step_map(sysw, integ, n, int(st0.dir))
     if sysw.constrained:
@@ -61,47 +98,32 @@ def check_case(case, info=None):
     else:
         F = F0
     B = sysw.tangent_basis(z0)
-    h = ic.fl(case.get("h", FD_H))
-    try:
-        with np.errstate(all="ignore"):
-            z1 = F(z0)
-            JB = ic.fd_jacobian(F, z0, h, order=4, basis=B)
-    except mici.errors.IntegratorError as e:
-        info["status"] = "error:" + type(e).__name__
-        return []
-    except ic.Timeout:
-        raise
-    except Exception as e:  # noqa: BLE001
-        info["status"] = "exception"
-        return [(f"{cls}.step raises {type(e).__name__}", f"step raised {type(e).__name__}: {e} [{ic.describe(case)}]")]
-    if not (np.all(np.isfinite(JB)) and np.all(np.isfinite(z1))):
-        info["status"] = "nonfinite"
-        return []
-    info["status"] = "ok"
-    Om = ic.omega(d)
-    W0 = B.T @ Om @ B
-    W1 = JB.T @ Om @ JB
-    size = max(1.0, float(np.max(np.abs(JB))) ** 2)
-    err = float(np.max(np.abs(W1 - W0)))
-    info["err"], info["size"] = err, size
+    # A genuine defect of symplecticity does not depend on the finite-difference step; truncation error (~h^4,
+    # large for strongly expanding multi-step maps) and rounding error (~1e-16/h) do.  A case is reported only
+    # if it fails for every step size of the ladder.
+    hs = [ic.fl(case["h"])] if "h" in case else FD_LADDER
     fails = []
-    desc = ic.describe(case)
-    where = "restricted to T(T*M)" if sysw.constrained else ""
-    if not err <= TOL_FORM * size:
-        fails.append((f"{cls} not symplectic", f"max |J^T Ω J - Ω| {where} = {err:.3e} > {TOL_FORM * size:.1e} for the finite-difference Jacobian of {n} step(s) [{desc}]"))
-    if not sysw.constrained:
-        det = float(np.linalg.det(JB))
-        info["det"] = det
-        if not abs(det - 1.0) <= TOL_DET * size ** d:
-            fails.append((f"{cls} not volume preserving", f"det J = {det!r} for the finite-difference Jacobian of {n} step(s) [{desc}]"))
-    else:
-        # the image of T_z(T*M) must be T_{F(z)}(T*M)
-        B1 = sysw.tangent_basis(z1)
-        resid = JB - B1 @ (B1.T @ JB)
-        terr = float(np.max(np.abs(resid)))
-        info["tangent_err"] = terr
-        if not terr <= TOL_TANGENT * max(1.0, float(np.max(np.abs(JB)))) * 10:
-            fails.append((f"{cls} leaves cotangent bundle", f"derivative of the step maps tangent vectors of T*M out of T(T*M) by {terr:.3e} [{desc}]"))
+    for k, h in enumerate(hs):
+        try:
+            with np.errstate(all="ignore"):
+                fails, m = _measure(case, sysw, F, z0, B, h)
+        except mici.errors.IntegratorError as e:
+            info["status"] = "error:" + type(e).__name__
+            return []
+        except ic.Timeout:
+            raise
+        except Exception as e:  # noqa: BLE001
+            info["status"] = "exception"
+            return [(f"{cls}.step raises {type(e).__name__}", f"step raised {type(e).__name__}: {e} [{ic.describe(case)}]")]
+        if fails is None:
+            info["status"] = "nonfinite"
+            return []
+        info["status"] = "ok"
+        if k == 0 or m["err"] / m["size"] < info["err"] / info["size"]:
+            info.update(m)
+        info["fd_refinements"] = k
+        if not fails:
+            break
     return fails
 
 
@@ -156,6 +178,8 @@ def direct_oracles(ctx):
             ctx.count("form_error<" + ("1e-10" if e < 1e-10 else "1e-8" if e < 1e-8 else "1e-7" if e < 1e-7 else "1e-6" if e < 1e-6 else "big"))
             if skind in ic.CONSTRAINED:
                 ctx.count(f"constraint:{case['system']['constr']['kind']}")
+            if info.get("fd_refinements"):
+                ctx.count(f"fd_step_refined_x{info['fd_refinements']}")
         for sig, what in fails:
             ctx.violation(sig, what, case)
     for k, v in ic.STATS.items():
@@ -171,7 +195,7 @@ def run(ctx: common.Ctx):
         "metric or curved constraint"
     )
     ctx.assumptions += [
-        "Jacobians by five-point central differences (h = 2^-9) of the real step map; tolerance 1e-6 x max(1,|J|^2)",
+        "Jacobians by five-point central differences of the real step map, h = 2^-9, re-measured with 2^-12 and 2^-14 before a failure is reported (a real defect is independent of h); tolerance 1e-6 x max(1,|J|^2)",
         "iterative solvers run with tightened tolerances (1e-13 / 1e-12) so that solver noise stays below the tolerance",
         "constrained: tangent space of T*M from the analytic constraint Jacobian / Hessian of the polynomial constraints",
     ]
